@@ -39,6 +39,7 @@ type worldOpt struct {
 	EagerFSM     bool // the FSM goroutine handles queued items at once (no apply lag)
 	EagerLU      bool // the leader consumes replication updates at once
 	EagerConnect bool // replication streams (re)connect at once when the peer is reachable
+	NoRepl       bool // replication streams never get to run (every append is delayed beyond the horizon): election-only schedules
 	Disconnects  bool // "peer disconnected" notifications (server.handleConn -> Raft.disconnected) are explicit events
 }
 
@@ -910,7 +911,7 @@ func (w *world) settle() error {
 				} else if ok {
 					progress = true
 				}
-				if w.opt.EagerConnect && !eagerTried[d] && d.canConnect() && w.reachable(n.idx, int(id-1)) {
+				if w.opt.EagerConnect && !w.opt.NoRepl && !eagerTried[d] && d.canConnect() && w.reachable(n.idx, int(id-1)) {
 					eagerTried[d] = true
 					d.guard("connect", d.connect)
 					if err := w.waitQuiet(); err != nil {
